@@ -42,6 +42,8 @@ pub struct Case {
     pub cmds: Vec<Cmd>,
     pub chunkings: Vec<(Vec<usize>, usize)>,
     pub history: Vec<ParseReq>,
+    #[serde(default)]
+    pub via_entry: bool,
     pub cfg: SimConfig,
 }
 
@@ -415,7 +417,7 @@ impl C15 {
                     ParseReq { kind, text, optset: rng.below(8) as u8 }
                 })
                 .collect();
-            return Case { class, cmds: vec![], chunkings: vec![], history, cfg };
+            return Case { class, cmds: vec![], chunkings: vec![], history, via_entry: false, cfg };
         }
         let maxc = if tier == Tier::Thorough { 12 } else { 8 };
         let n = rng.range(2, maxc);
@@ -447,7 +449,8 @@ impl C15 {
             let sizes: Vec<usize> = (0..k).map(|_| *rng.pick(&[1usize, 2, 3, 5, 7, 16, 40, 200])).collect();
             chunkings.push((sizes, *rng.pick(&[1usize, 2, 8, 64, 8192])));
         }
-        Case { class, cmds, chunkings, history: vec![], cfg }
+        let via_entry = rng.below(3) == 0;
+        Case { class, cmds, chunkings, history: vec![], via_entry, cfg }
     }
 }
 
@@ -485,7 +488,8 @@ fn judge_delivery(case: &Case, v: &mut Verdict) {
     let expected_out: String = case.cmds.iter().map(|c| c.out.clone()).collect();
 
     let run = |fe: FrontEnd, cfg: &SimConfig, text: &str| -> RunResult {
-        let spec = RunSpec::new(text.to_string(), fe, cfg.clone());
+        let mut spec = RunSpec::new(text.to_string(), fe, cfg.clone());
+        spec.via_entry = case.via_entry;
         runner::run(&spec)
     };
     let mut account = |v: &mut Verdict, r: &RunResult| {
@@ -828,7 +832,7 @@ impl Check for C15 {
     fn components(&self) -> Value {
         json!({
             "real": ["brush-interactive completeness.rs, minimal/input_backend.rs read_program_from (through verif_read_program_from), interactive_shell.rs", "brush-core shell/execution.rs (run_script, run_dash_c_command, source_script, run_string), shell/parsing.rs parse_string_impl cache, callstack.rs line offsets", "brush-parser tokenizer.rs TOKENIZE_CACHE, word.rs cacheable_parse, arithmetic.rs cache", "brush-builtins eval, ."],
-            "stub": ["process stdin -> simulated chunked stream behind a shared BufReader", "brush-shell entry.rs (front-end functions are called directly)", "brush-core regex.rs cache is not exercised"]
+            "stub": ["process stdin -> simulated chunked stream behind a shared BufReader", "brush-shell entry.rs is exercised in a seeded fraction of the cases (verif_run: argument parsing, instantiate_shell, run_in_shell); in the others the front-end functions are called directly", "brush-core regex.rs cache is not exercised"]
         })
     }
     fn assumptions(&self) -> Vec<String> {
